@@ -15,6 +15,13 @@ Two layers (see harness/manifest_parts/C06.json):
       tcons   _make_constraints on the cosets the real call used
       tvalid  the constraints of the real call are the stabiliser-chain orbits of the pattern (verified checker
               constraintsValidB = hypothesis of theorem ismags_find_one_per_class); analyze_symmetry itself is NOT transcribed
+      tcosets the COSETS dict of the real call (fresh or from the shared cache) against the checker cosetsExactB
+              (lean/VermouthModel/C06_Cosets.lean; cosetsExact_spec: every coset[k] is exactly the orbit of k in the
+              stabiliser of the smaller nodes, nodes without an entry have a trivial orbit) and the product of the
+              coset sizes against |Aut| of the verified reference (theorem cosetsExact_product: orbit-stabiliser);
+              when Python's own brute force finds a wrong coset, the pattern is searched in renumbered copies of
+              itself until the oracle sees a wrong answer (a failing input, not only a broken correspondence)
+    Every call into the real code runs under a CPU-time limit (a call that does not return is a failing input).
 (2) Verified REFERENCE lean/VermouthModel/Iso.lean (shared) + C06.lean; theorems lean/VermouthProps/C06.lean: the real
     vermouth.ismags.ISMAGS is compared with the reference enumerator / class checker / MCIS through the driver, and an
     independent Python brute force (different algorithm for the classes: canonical representatives) states the property
@@ -63,12 +70,15 @@ chk.extra['symmetry_code_fingerprint'] = _fp
 if not SYMMETRY_CODE_IS_THE_KNOWN_ONE:
     chk.notes.append('the automorphism search of vermouth/ismags.py differs from the code in which F-C06-1 was recorded '
                      '(fingerprint %s): cases with the F-C06-1 signature are reported as violations' % _fp)
-chk.extra['rule'] = ('graph pairs: exhaustive small graphs (graph atlas, random keys), symmetric patterns of 5-10 '
+chk.extra['rule'] = ('graph pairs: exhaustive small graphs (graph atlas, random keys), EXHAUSTIVE LABELLINGS (every distinct '
+                     'numbering, n <= 5, or a seeded sample, n = 6..8, of cycles, paths, stars, spiders, K_n, K_m,n, prisms, '
+                     'two disjoint copies, on contiguous and non-contiguous keys, in renumbered copies of themselves +- a '
+                     'node / an edge, symmetry=True), symmetric patterns of 5-10 '
                      'nodes (paths, cycles, stars, spiders, trees+chord, complete bipartite) inside noisy targets, '
                      'random sparse pairs for the common-subgraph search, corpus; call histories (2-5 calls on one matcher object; 2-4 matchers sharing one symmetry cache with patterns of equal keys/edges/label-class sizes); node keys non-contiguous, 1-3 '
                      'node colours, 1-2 edge colours. A case is non-trivial if the pattern has >= 3 nodes and '
                      '(>= 1 isomorphism / common subgraph of >= 2 nodes was found or |Aut(pattern)| > 1); '
-                     'distinct = distinct protocol line. Every call is also replayed on the TRANSCRIPTION (ops tcand/tiso/tlcs/tcons/tvalid) with the constraints the real call made')
+                     'distinct = distinct protocol line. Every call is also replayed on the TRANSCRIPTION (ops tcand/tiso/tlcs/tcons/tvalid/tcosets) with the constraints / cosets the real call made')
 chk.trusted.append('harness/c06.py: graph encoding, canonicalisation of mappings, Python brute-force oracle')
 chk.lean(['VermouthProps.C06_All'], 'driver_c06')
 chk.extra['lean_build_and_audit_s'] = round(chk.elapsed(), 1)
@@ -77,7 +87,67 @@ import networkx as nx
 from vermouth.ismags import ISMAGS
 
 MAX_AUT = 150
+MAX_AUT_LABELLING = 1500       # the exhaustive-labelling stream also takes K6, K7-less shapes like two K4 (|Aut| = 1152)
 MAX_FULL = 2500
+
+
+# ----------------------------------------------------------------------------
+# CPU-time limit for every call into the real code
+# ----------------------------------------------------------------------------
+# A broken symmetry analysis can deliver constraints (a, b) AND (b, a); ISMAGS._remove_node then never returns.
+# A call that does not come back is a failing input like any other (the search "returns ... every maximum one"),
+# so every call of the real code runs under a limit of CPU time (ITIMER_VIRTUAL: machine load does not count);
+# on the unchanged tree the slowest call takes well under a second (chk.extra['max_real_call_cpu_s']).
+CALL_LIMIT = 10.0
+MAX_TIMEOUTS = 3               # after that many the remaining streams are skipped (the verdict is there)
+
+
+class CaseTimeout(Exception):
+    pass
+
+
+_ARMED = [False]
+_TIMEOUTS = [0]
+_MAX_CALL = [0.0]
+
+
+def _vt(signum, frame):
+    if not _ARMED[0]:
+        return
+    f, depth = frame, 0
+    while f is not None and depth < 8:     # never raise inside coverage.py (see common.py)
+        if '/coverage/' in f.f_code.co_filename:
+            return
+        f, depth = f.f_back, depth + 1
+    raise CaseTimeout('no answer within %d s of CPU time' % CALL_LIMIT)
+
+
+signal.signal(signal.SIGVTALRM, _vt)
+
+
+def guarded(fn):
+    """run fn() (a call into the real code) under the CPU-time limit; the timer repeats (an exception raised
+    while a finaliser runs is swallowed there)"""
+    t0 = time.process_time()
+    _ARMED[0] = True
+    signal.setitimer(signal.ITIMER_VIRTUAL, CALL_LIMIT, 0.25)
+    try:
+        return fn()
+    except CaseTimeout:
+        _TIMEOUTS[0] += 1
+        chk.count('real_call_timeout')
+        raise
+    finally:
+        _ARMED[0] = False
+        signal.setitimer(signal.ITIMER_VIRTUAL, 0)
+        _MAX_CALL[0] = max(_MAX_CALL[0], time.process_time() - t0)
+
+
+def stopped():
+    if _TIMEOUTS[0] >= MAX_TIMEOUTS:
+        chk.count('skipped_after_%d_timeouts' % MAX_TIMEOUTS)
+        return True
+    return False
 
 
 # ----------------------------------------------------------------------------
@@ -206,7 +276,7 @@ def enc_graph(G, order):
 
 
 def coset_product(ism, sg):
-    _, cosets = ism.analyze_symmetry(sg, ism._sgn_partitions, ism._sge_colors)
+    _, cosets = guarded(lambda: ism.analyze_symmetry(sg, ism._sgn_partitions, ism._sge_colors))
     prod = 1
     for v in cosets.values():
         prod *= len(v)
@@ -239,7 +309,12 @@ class ConstraintRecorder:
 
 
 
+_N_ORACLE = [0]
+
+
 def add(cid, ln, impl, errs, nontriv, finding=None):
+    if errs and not finding:
+        _N_ORACLE[0] += 1
     lines.append(ln)
     pending.append((cid, ln, impl, errs, nontriv, finding))
 
@@ -247,13 +322,14 @@ def add(cid, ln, impl, errs, nontriv, finding=None):
 class Pair:
     """one (graph, pattern) pair with its reference data (computed once, independently of any matcher)"""
 
-    def __init__(self, g, sg, explicit=False):
+    def __init__(self, g, sg, explicit=False, max_aut=MAX_AUT):
         self.g, self.sg, self.explicit = g, sg, explicit
         self.order = pattern_order(sg)
         self.sn, self.se = enc_graph(sg, self.order)
         self.gn, self.ge = enc_graph(g, sorted(g.nodes))
-        self.auts = brute(sg, sg, self.order, limit=MAX_AUT)
-        self.ok = len(self.auts) <= MAX_AUT
+        self.auts = brute(sg, sg, self.order, limit=max_aut)
+        self.ok = len(self.auts) <= max_aut
+        self._orbits = None
         idx = {p: i for i, p in enumerate(self.order)}
         self.auts_idx = [tuple(idx[x] for x in a) for a in self.auts]
         self.auts_maps = [dict(zip(self.order, a)) for a in self.auts]
@@ -272,6 +348,16 @@ class Pair:
             self._mcis = brute_mcis(self.g, self.sg, self.order)
         return self._mcis
 
+    def stab_orbits(self):
+        """node -> its orbit under the automorphisms fixing every pattern node with a smaller key (brute force)"""
+        if self._orbits is None:
+            res, stab = {}, self.auts_maps
+            for i in sorted(self.sg.nodes):
+                res[i] = {a[i] for a in stab}
+                stab = [a for a in stab if a[i] == i]
+            self._orbits = res
+        return self._orbits
+
     def matcher(self, cache=None):
         g, sg = self.g, self.sg
         ncols = {ncol(g, n) for n in g} | {ncol(sg, n) for n in sg}
@@ -284,6 +370,69 @@ class Pair:
 
     def describe(self):
         return 'pattern nodes %s edges %s in graph nodes %s edges %s' % (self.sn, self.se, self.gn, self.ge)
+
+
+WITNESS_TODO, _WITNESS_SEEN, _IN_WITNESS = [], set(), [False]
+
+
+def check_cosets(cid, P, cosets_used, nontriv):
+    """the cosets dict analyze_symmetry delivered for this call (fresh or from the shared cache) against the
+    specification cosetsExactB (verified against the reference `auts`: cosetsExact_spec): every coset[k] is EXACTLY
+    the orbit of k in the stabiliser of the smaller nodes, nodes without an entry have a trivial orbit, and the
+    product of the coset sizes is |Aut| as the reference counts it (theorem cosetsExact_product)"""
+    if cosets_used is None:
+        return
+    prod = 1
+    for _, v in cosets_used:
+        prod *= len(v)
+    chk.count('coset_product_eq_aut=%s' % (prod == P.naut))
+    add('%s-tcosets' % cid, line('tcosets', P.sn, P.se, cosets_used), 'exact=1 dict=1 prod=%d aut=%d' % (prod, prod),
+        [], nontriv and P.naut > 1)
+    truth = P.stab_orbits()
+    got = {k: set(v) for k, v in cosets_used}
+    if all(got.get(k, {k}) == truth[k] for k in truth) and set(got) <= set(truth):
+        return
+    # analyze_symmetry is wrong on this pattern (the tcosets case above fails).  Whether THIS call shows a wrong
+    # answer depends on the numbering of the target; look for a target that does (a failing input of the property)
+    chk.count('cosets_differ_from_stabiliser_orbits')
+    key = enc([P.sn, P.se])
+    if key not in _WITNESS_SEEN and len(_WITNESS_SEEN) < 6 and not _IN_WITNESS[0]:
+        _WITNESS_SEEN.add(key)
+        WITNESS_TODO.append((cid, P))
+
+
+def flush_witness():
+    """for every pattern on which the cosets were wrong: the pattern in renumbered copies of itself (and with a
+    pendant node), symmetry=True, until the oracle sees a wrong answer"""
+    if not WITNESS_TODO or _IN_WITNESS[0]:
+        return
+    _IN_WITNESS[0] = True
+    wrng = chk.rng('witness')
+    try:
+        while WITNESS_TODO:
+            cid, P = WITNESS_TODO.pop()
+            before = _N_ORACLE[0]
+            for t in range(40):
+                if _N_ORACLE[0] > before or stopped():
+                    break
+                g = P.sg.copy()
+                if t % 3 == 2:
+                    g.add_edge(max(g.nodes) + 1, wrng.choice(list(g.nodes)))
+                    for u, v in g.edges:
+                        g.edges[u, v].setdefault('c', 0)
+                    for n in g.nodes:
+                        g.nodes[n].setdefault('c', 0)
+                g = relabel(g, wrng)
+                P2 = Pair(g, P.sg, P.explicit, max_aut=max(MAX_AUT, P.naut))
+                if not P2.ok or P2.full() is None:
+                    break
+                chk.count('witness_search_pairs')
+                call_iso('%s-witness%d' % (cid, t), P2, P2.matcher(), True)
+                if len(P.sg) <= 8:
+                    call_lcs('%s-witness%d' % (cid, t), P2, P2.matcher(), True)
+            chk.count('witness_found=%s' % (_N_ORACLE[0] > before))
+    finally:
+        _IN_WITNESS[0] = False
 
 
 def call_iso(cid, P, ism, symmetry, alias=False, ctx=''):
@@ -299,8 +448,8 @@ def call_iso(cid, P, ism, symmetry, alias=False, ctx=''):
     rec = ConstraintRecorder(ism)
     calls = CallRecorder(ism, False)
     try:
-        it = ism.subgraph_isomorphisms_iter(symmetry=symmetry) if alias else ism.find_isomorphisms(symmetry=symmetry)
-        raw = list(it)
+        raw = guarded(lambda: list(ism.subgraph_isomorphisms_iter(symmetry=symmetry) if alias
+                                   else ism.find_isomorphisms(symmetry=symmetry)))
     except Exception as e:  # noqa
         raw = []
         errs.append('exception %s: %s' % (type(e).__name__, e))
@@ -382,6 +531,7 @@ def call_iso(cid, P, ism, symmetry, alias=False, ctx=''):
             # hypothesis antisymB of theorem ismags_find_exact on the constraints the real code made
             cset = {tuple(c) for c in cons}
             chk.count('hyp_antisymB=%s' % all((hi, lo) not in cset for lo, hi in cset))
+            check_cosets(cid, P, cosets_used, nontriv)
     # the TRANSCRIPTION of find_isomorphisms/_map_nodes (C06_Ismags.lean) with the constraints the real
     # call used must yield the same mappings with the same multiplicities (sorted: the yield order depends
     # on CPython's set iteration order)
@@ -403,10 +553,11 @@ def call_lcs(cid, P, ism, symmetry, ctx=''):
     rec = ConstraintRecorder(ism)
     calls = CallRecorder(ism, True)
     try:
-        raw = list(ism.largest_common_subgraph(symmetry=symmetry))
+        raw = guarded(lambda: list(ism.largest_common_subgraph(symmetry=symmetry)))
     except Exception as e:  # noqa
         raw = []
         errs.append('exception %s: %s' % (type(e).__name__, e))
+    cosets_used = rec.cosets
     cons = rec.take()
     choices = calls.take()
     out = []
@@ -423,6 +574,7 @@ def call_lcs(cid, P, ism, symmetry, ctx=''):
     if symmetry and len(sg) and len(g):
         # hypothesis constraintsValidB of theorem ismags_lcs_sym_cover on the constraints of this call
         add('%s-tvalid' % cid, line('tvalid', P.sn, P.se, sorted(cons)), '1', [], nontriv and naut > 1)
+        check_cosets(cid, P, cosets_used, nontriv)
     if choices is not None:
         add('%s-qlcs%d' % (cid, int(symmetry)), line('qlcs', P.gn, P.ge, P.sn, P.se, cons) + ' ' + choices,
             enc([[list(pt) for pt in m] for m in out]), [], nontriv)
@@ -506,9 +658,10 @@ def call_cand(cid, P):
     if not len(P.sg) or not len(P.g):
         return
     ism = P.matcher()
+    nc, la = {}, {}
     try:
-        nc = ism._find_nodecolor_candidates()
-        la = ism._get_lookahead_candidates()
+        nc = guarded(ism._find_nodecolor_candidates)
+        la = guarded(ism._get_lookahead_candidates)
         impl = enc([[[sorted(s) for s in nc[u]], [sorted(la[u])] if u in la else [[]]] for u in P.order])
     except Exception as e:  # noqa
         impl = 'exception %s' % type(e).__name__
@@ -529,11 +682,13 @@ def call_bool(cid, P, ism, which, symmetry, ctx=''):
     errs = []
     rec = ConstraintRecorder(ism)
     try:
-        got = bool(getattr(ism, which)(symmetry=symmetry))
+        got = bool(guarded(lambda: getattr(ism, which)(symmetry=symmetry)))
     except Exception as e:  # noqa
         got = None
         errs.append('exception %s: %s' % (type(e).__name__, e))
     cons = rec.take()
+    if symmetry:
+        check_cosets(cid, P, rec.cosets, len(P.sg) >= 3)
     want = bool(full) and (which == 'subgraph_is_isomorphic' or len(P.g) == len(P.sg))
     if got is not None and got != want:
         errs.append('%s(symmetry=%s) returns %s although %d induced subgraph isomorphisms exist (|graph|=%d, |pattern|=%d)'
@@ -546,9 +701,12 @@ def call_bool(cid, P, ism, which, symmetry, ctx=''):
         enc(got), [], len(P.sg) >= 3 and (bool(full) or P.naut > 1))
 
 
-def run_pair(cid, g, sg, do_iso=True, do_lcs=False, explicit=False, alias=False):
+def run_pair(cid, g, sg, do_iso=True, do_lcs=False, explicit=False, alias=False, symmetries=(False, True),
+             max_aut=MAX_AUT):
     """all requested queries for one pair of graphs, each on a fresh matcher"""
-    P = Pair(g, sg, explicit)
+    if stopped():
+        return
+    P = Pair(g, sg, explicit, max_aut)
     if not P.ok:
         chk.count('skipped_aut_cap')
         return
@@ -562,13 +720,14 @@ def run_pair(cid, g, sg, do_iso=True, do_lcs=False, explicit=False, alias=False)
             chk.count('skipped_full_cap')
             return
         chk.count('isos=%s' % (0 if not full else 1 if len(full) == 1 else '2-20' if len(full) <= 20 else '>20'))
-        for symmetry in (False, True):
+        for symmetry in symmetries:
             call_iso(cid, P, P.matcher(), symmetry, alias)
     if do_lcs:
         k = P.mcis()[0]
         chk.count('lcs_size_vs_pattern=%s' % ('equal' if k == len(sg) else 'minus1' if k == len(sg) - 1 else 'smaller'))
-        for symmetry in (False, True):
+        for symmetry in symmetries:
             call_lcs(cid, P, P.matcher(), symmetry)
+    flush_witness()
 
 
 CALLS = [('find_isomorphisms', False), ('find_isomorphisms', True), ('subgraph_isomorphisms_iter', False),
@@ -591,6 +750,8 @@ def do_call(cid, P, ism, name, symmetry, ctx):
 
 def run_object_history(cid, g, sg, calls, explicit=False):
     """several calls on ONE matcher object; every answer must be right as if computed alone"""
+    if stopped():
+        return
     P = Pair(g, sg, explicit)
     if not P.ok or P.full() is None:
         chk.count('skipped_aut_cap')
@@ -604,6 +765,7 @@ def run_object_history(cid, g, sg, calls, explicit=False):
         do_call('%s-c%d' % (cid, j), P, ism, name, symmetry, ctx)
         done.append((name, symmetry))
     chk.count('object_history_len=%d' % len(calls))
+    flush_witness()
 
 
 def run_cache_history(cid, pairs, rng):
@@ -611,6 +773,8 @@ def run_cache_history(cid, pairs, rng):
     residues); every answer must be right as if computed alone"""
     cache = {}
     earlier = []
+    if stopped():
+        return
     for j, (g, sg, explicit) in enumerate(pairs):
         P = Pair(g, sg, explicit)
         if not P.ok or P.full() is None:
@@ -625,6 +789,7 @@ def run_cache_history(cid, pairs, rng):
         earlier.append(P.describe())
     chk.count('cache_history_len=%d' % len(pairs))
     chk.count('cache_entries=%d' % min(len(cache), 4))
+    flush_witness()
 
 
 # ----------------------------------------------------------------------------
@@ -810,6 +975,138 @@ if chk.thorough:
                 run_pair('lab-%d-%d-%d' % (n, mask, ti), g, P.copy(), do_iso=True, do_lcs=True, explicit=(n_lab % 3 == 0))
                 n_lab += 1
     chk.count('labelled_pattern_pairs', n_lab)
+
+# ---- EXHAUSTIVE LABELLING: every small symmetric shape under all / many node numberings ------------------
+# The symmetry analysis walks the pattern in KEY order (cosets = orbits in the stabiliser of the smaller keys), so
+# what it does depends on how the shape is NUMBERED, not only on the shape: a five-ring numbered 0-3-2-1-4 merges
+# orbits after a coset was stored, a ring numbered along the ring never does.  Every distinct labelled version
+# (n <= 5), or a seeded sample of them (n = 6..8), of every symmetric shape below is searched with symmetry=True in
+# a renumbered copy of itself (plain, plus a pendant node, plus / minus an edge).
+def labelling_shapes():
+    S = []
+    for n in range(3, 8):
+        S.append(('cycle%d' % n, nx.cycle_graph(n)))
+    for n in range(2, 8):
+        S.append(('path%d' % n, nx.path_graph(n)))
+    for n in range(3, 7):
+        S.append(('star%d' % n, nx.star_graph(n)))
+    S.append(('spider222', spider(3, 2)))
+    for name, legs in (('spider112', (1, 1, 2)), ('spider122', (1, 2, 2)), ('spider1112', (1, 1, 1, 2)), ('spider113', (1, 1, 3))):
+        G = nx.Graph()
+        k = 1
+        for length in legs:
+            prev = 0
+            for _ in range(length):
+                G.add_edge(prev, k)
+                prev = k
+                k += 1
+        S.append((name, G))
+    for n in range(3, 7):
+        S.append(('K%d' % n, nx.complete_graph(n)))
+    for a, b in ((2, 3), (3, 3), (2, 4), (3, 4), (2, 5)):
+        S.append(('K%d_%d' % (a, b), nx.complete_bipartite_graph(a, b)))
+    S.append(('prism3', nx.circular_ladder_graph(3)))
+    S.append(('prism4', nx.circular_ladder_graph(4)))
+    for name, G in (('path2', nx.path_graph(2)), ('path3', nx.path_graph(3)), ('cycle3', nx.cycle_graph(3)),
+                    ('cycle4', nx.cycle_graph(4)), ('star3', nx.star_graph(3)), ('K4', nx.complete_graph(4)),
+                    ('path4', nx.path_graph(4))):
+        S.append(('2x' + name, nx.disjoint_union(G, G)))
+    S.append(('3xpath2', nx.disjoint_union(nx.disjoint_union(nx.path_graph(2), nx.path_graph(2)), nx.path_graph(2))))
+    S.append(('2xpath2+node', nx.disjoint_union(nx.disjoint_union(nx.path_graph(2), nx.path_graph(2)), nx.path_graph(1))))
+    if chk.thorough:
+        # every graph on exactly 5 nodes (none of them is asymmetric)
+        for G in atlas:
+            if len(G) == 5:
+                S.append(('atlas%s' % G.name, nx.Graph(G)))
+    return [(name, nx.Graph(G)) for name, G in S]
+
+
+def numberings(G, rng, cap):
+    """distinct LABELLED versions of G on the keys 0..n-1: all of them (n <= 5, or when there are few), else a seeded
+    sample of `cap`"""
+    n = len(G)
+    nodes = list(G.nodes)
+    seen, out = set(), []
+
+    def take(perm):
+        H = nx.Graph()
+        H.add_nodes_from(range(n))
+        H.add_edges_from((perm[nodes.index(u)], perm[nodes.index(v)]) for u, v in G.edges)
+        key = frozenset(frozenset(e) for e in H.edges)
+        if key in seen:
+            return
+        seen.add(key)
+        out.append(H)
+
+    if n <= 5:
+        for perm in itertools.permutations(range(n)):
+            take(perm)
+        return out
+    if cap > 2:
+        take(tuple(range(n)))                   # numbered as constructed
+    tries = 0
+    while len(out) < cap and tries < 30 * cap:
+        take(tuple(rng.sample(range(n), n)))
+        tries += 1
+    return out
+
+
+rng = chk.rng('labelling')
+_t_lab = time.time()
+_n_lines_lab = len(lines)
+n_lab_pat = n_lab_pairs = 0
+for name, shape in labelling_shapes():
+    n = len(shape)
+    big = n >= 6
+    cap = (48 if chk.thorough else 8) if big else 10 ** 6
+    if big and not chk.thorough and n == 8:
+        cap = 6
+    shape_aut = len(brute(shape, shape, pattern_order(shape), limit=MAX_AUT))
+    if shape_aut > MAX_AUT:
+        # K6, star6, two K4, K2_5: the class oracle is quadratic in |Aut| (seconds per pair) - thorough tier only
+        chk.count('labelling_shape_aut_gt_%d' % MAX_AUT)
+        if not chk.thorough:
+            continue
+        cap = 1 if n == 8 else 2                         # two K4: half a minute per pair
+    elif shape_aut > 100:
+        cap = min(cap, 40 if chk.thorough else 3)        # K3_4, star5, K5, two 4-rings
+    labelled = numberings(shape, rng, cap)
+    chk.count('labelling_shape_n=%d' % n)
+    _t_shape = time.time()
+    for li, sg0 in enumerate(labelled):
+        # keys: 0..n-1, or the same relative order on non-contiguous keys
+        if n_lab_pat % 2:
+            ks = sorted(rng.sample(range(-5, 60), n))
+            sg0 = nx.relabel_nodes(sg0, dict(zip(range(n), ks)))
+            chk.count('labelling_keys_noncontiguous')
+        n_lab_pat += 1
+        variants = ['copy', 'pendant', 'edge'] if (chk.thorough or not big) else [('copy', 'pendant', 'edge')[li % 3]]
+        if shape_aut > 100 and big:
+            variants = ['copy', 'pendant'] if chk.thorough else variants[:1]
+        if not chk.thorough and not big and n == 5 and len(labelled) > 20:
+            variants = [('copy', 'pendant', 'edge')[li % 3]]      # path5, spider112: 60 numberings each
+        for var in variants:
+            g = sg0.copy()
+            if var == 'pendant':
+                g.add_edge(max(g.nodes) + 1, rng.choice(list(sg0.nodes)))
+            elif var == 'edge':
+                non = [(u, v) for u, v in itertools.combinations(sorted(g.nodes), 2) if not g.has_edge(u, v)]
+                if non and rng.random() < 0.5:
+                    g.add_edge(*rng.choice(non))                     # the pattern no longer fits: smaller common subgraph
+                elif g.number_of_edges():
+                    g.remove_edge(*rng.choice(sorted(g.edges)))
+            g = relabel(g, rng)
+            both = chk.thorough and n_lab_pairs % 4 == 0
+            run_pair('label-%s-%d-%s' % (name, li, var), g, sg0.copy(), do_iso=True, do_lcs=True,
+                     explicit=(n_lab_pairs % 5 == 0), symmetries=((False, True) if both else (True,)),
+                     max_aut=MAX_AUT_LABELLING)
+            n_lab_pairs += 1
+            chk.count('labelling_target_' + var)
+    chk.extra.setdefault('labelling_shape_s', {})[name] = [len(labelled), round(time.time() - _t_shape, 2)]
+chk.count('labelling_patterns', n_lab_pat)
+chk.count('labelling_pairs', n_lab_pairs)
+chk.extra['labelling_stream_s'] = round(time.time() - _t_lab, 1)
+chk.extra['labelling_stream_MB'] = round(sum(len(l) for l in lines[_n_lines_lab:]) / 1e6, 1)
 
 # ---- symmetric patterns of 5-10 nodes in noisy targets -----------------------------
 rng = chk.rng('sym')
@@ -1113,7 +1410,15 @@ for i in range(N):
 # ---- model side ------------------------------------------------------------------
 _t_drv = time.time()
 chk.extra['protocol_MB'] = round(sum(len(l) for l in lines) / 1e6, 1)
-models = chk.drv.ask(lines) if chk.lean_ok else [None] * len(lines)
+chk.extra['max_real_call_cpu_s'] = round(_MAX_CALL[0], 2)
+if chk.lean_ok:
+    # identical protocol lines (the same pattern analysed by several calls) are asked once
+    uniq = list(dict.fromkeys(lines))
+    chk.extra['protocol_lines_distinct'] = len(uniq)
+    answer = dict(zip(uniq, chk.drv.ask(uniq)))
+    models = [answer[ln] for ln in lines]
+else:
+    models = [None] * len(lines)
 chk.extra['driver_s'] = round(time.time() - _t_drv, 1)
 chk.extra['real_code_and_oracle_s'] = round(_t_drv - chk.t0, 1)
 for (cid, ln, impl, errs, nontriv, finding), mo in zip(pending, models):
